@@ -67,6 +67,7 @@ type GroupFocus struct {
 	Only848    bool // KIP-848 protocols only
 	Scarce     bool // always fewer partitions than members
 	SlowRevoke bool // revoke callbacks that outlast several (fast) heartbeats
+	CoopMulti  bool // incremental protocols only (cooperative-sticky, KIP-848), 2-3 topics of up to 6 partitions, every member subscribed to at least two
 }
 
 func GenGroupPlan(t *rapid.T) GroupPlan { return GenGroupPlanF(t, GroupFocus{}) }
@@ -78,6 +79,9 @@ func GenGroupPlanF(t *rapid.T, f GroupFocus) GroupPlan {
 	if f.Only848 {
 		protos = []string{"848-uniform", "848-range"}
 	}
+	if f.CoopMulti {
+		protos = []string{"coop", "coop", "848-uniform", "848-range"}
+	}
 	p.Protocol = rapid.SampledFrom(protos).Draw(t, "protocol")
 	// scarce plans have fewer partitions than members, so that rebalances leave members with
 	// nothing at all (a member losing its whole assignment takes different client paths)
@@ -86,6 +90,9 @@ func GenGroupPlanF(t *rapid.T, f GroupFocus) GroupPlan {
 	maxParts := 4
 	if scarce {
 		nt, maxParts = 1, 2
+	}
+	if f.CoopMulti {
+		scarce, nt, maxParts = false, rapid.IntRange(2, 3).Draw(t, "ntopics-multi"), 6
 	}
 	for i := 0; i < nt; i++ {
 		p.Topics = append(p.Topics, fmt.Sprintf("g%d", i))
@@ -100,7 +107,7 @@ func GenGroupPlanF(t *rapid.T, f GroupFocus) GroupPlan {
 	for s := 0; s < p.Slots; s++ {
 		var ts []int
 		for i := 0; i < nt; i++ {
-			if i == 0 || rapid.IntRange(0, 2).Draw(t, "sub") != 0 {
+			if i == 0 || f.CoopMulti && i == 1 || rapid.IntRange(0, 2).Draw(t, "sub") != 0 {
 				ts = append(ts, i)
 			}
 		}
